@@ -54,7 +54,7 @@ var Schemas = map[string]string{
   leaf o { type string; }
   choice h {
     case a { leaf a1 { type string; } leaf a2 { type int32; } }
-    case b { container b1 { leaf x { type string; } } }
+    case b { container b1 { leaf x { type string; } } leaf b2 { type string; } }
     case c { list c1 { key k; leaf k { type string; } leaf v { type string; } } }
     leaf s { type string; }
   }
